@@ -310,3 +310,136 @@ theorem removeAtSlot_inv {t : Raw κ ν} (hI : RInv hashOf t) {i : Nat} (hi : i 
 
 end
 end R
+
+namespace R
+set_option linter.unusedSectionVars false
+variable {κ ν : Type} [DecidableEq κ]
+section
+variable (hashOf : κ → Nat)
+
+/-- the probe loop of `find_or_free` (after `reserve`): `.ok (.ok i)` = found at `i`,
+`.ok (.error p)` = not found, use slot `p` (the last DEAD slot seen, else the FREE slot reached) -/
+def fofLoop (t : Raw κ ν) (k : κ) : Nat → Nat → Option Nat → Out (Except Nat Nat)
+  | 0, _, _ => .hang
+  | fuel + 1, idx, fd =>
+    match t.slot idx with
+    | .free => .ok (.error (fd.getD idx))
+    | .dead => fofLoop t k fuel ((idx + 1) % t.cap) (some idx)
+    | .full st k' _ =>
+      if st = status hashOf k ∧ k' = k then .ok (.ok idx) else fofLoop t k fuel ((idx + 1) % t.cap) fd
+
+theorem fofLoop_skip (t : Raw κ ν) (k : κ) :
+    ∀ (n d fuel : Nat) (fd : Option Nat),
+      (∀ d', d ≤ d' → d' < d + n → t.slot (probe hashOf t.cap k d') ≠ .free ∧ ¬ HasKey t k (probe hashOf t.cap k d')) →
+      ∃ fd', fofLoop hashOf t k (fuel + n) (probe hashOf t.cap k d) fd =
+               fofLoop hashOf t k fuel (probe hashOf t.cap k (d + n)) fd' ∧
+        (fd' = fd ∨ ∃ d'', d ≤ d'' ∧ d'' < d + n ∧ t.slot (probe hashOf t.cap k d'') = .dead ∧
+          fd' = some (probe hashOf t.cap k d'')) := by
+  intro n
+  induction n with
+  | zero => intro d fuel fd _; exact ⟨fd, rfl, Or.inl rfl⟩
+  | succ n ih =>
+    intro d fuel fd h
+    have hd := h d (Nat.le_refl _) (by omega)
+    have hstep : ∀ fd1, ∃ fd', fofLoop hashOf t k (fuel + n) (probe hashOf t.cap k (d + 1)) fd1 =
+        fofLoop hashOf t k fuel (probe hashOf t.cap k (d + 1 + n)) fd' ∧
+        (fd' = fd1 ∨ ∃ d'', d + 1 ≤ d'' ∧ d'' < d + 1 + n ∧ t.slot (probe hashOf t.cap k d'') = .dead ∧
+          fd' = some (probe hashOf t.cap k d'')) :=
+      fun fd1 => ih (d + 1) fuel fd1 (fun d' h1 h2 => h d' (by omega) (by omega))
+    rw [show fuel + (n + 1) = (fuel + n) + 1 by omega, show d + (n + 1) = d + 1 + n by omega]
+    generalize hs : t.slot (probe hashOf t.cap k d) = sl at hd
+    cases sl with
+    | free => exact absurd rfl hd.1
+    | dead =>
+      obtain ⟨fd', e, hfd⟩ := hstep (some (probe hashOf t.cap k d))
+      refine ⟨fd', ?_, ?_⟩
+      · simp only [fofLoop, hs]; rw [← probe_succ]; exact e
+      · rcases hfd with e' | ⟨d'', a, b, c, e'⟩
+        · exact Or.inr ⟨d, Nat.le_refl _, by omega, hs, e'⟩
+        · exact Or.inr ⟨d'', by omega, by omega, c, e'⟩
+    | full st k' v =>
+      have hne : k' ≠ k := by intro e; subst e; exact hd.2 ⟨st, v, hs⟩
+      obtain ⟨fd', e, hfd⟩ := hstep fd
+      refine ⟨fd', ?_, ?_⟩
+      · simp only [fofLoop, hs, hne, and_false, ↓reduceIte]; rw [← probe_succ]; exact e
+      · rcases hfd with e' | ⟨d'', a, b, c, e'⟩
+        · exact Or.inl e'
+        · exact Or.inr ⟨d'', by omega, by omega, c, e'⟩
+
+/-- `find_or_free` on an absent key: terminates and returns a non-full slot on the key's probe path
+before (or at) the first FREE slot -/
+theorem fof_absent {t : Raw κ ν} (hI : RInv hashOf t) (hc : 0 < t.cap) {k : κ}
+    (habs : ∀ i, i < t.cap → ¬ HasKey t k i) :
+    ∃ p dp, fofLoop hashOf t k t.cap (home hashOf t.cap k) none = .ok (.error p) ∧
+      dp < t.cap ∧ probe hashOf t.cap k dp = p ∧ (t.slot p).isFull = false ∧
+      (∀ d', d' < dp → t.slot (probe hashOf t.cap k d') ≠ .free) := by
+  obtain ⟨D, hD, hfree, hpath⟩ := exists_first_free hashOf hI hc k
+  obtain ⟨fd', e, hfd⟩ := fofLoop_skip hashOf t k D 0 (t.cap - D) none
+    (fun d' _ hd' => ⟨hpath d' (by omega), habs _ (probe_lt hashOf hc k d')⟩)
+  rw [Nat.zero_add, show t.cap - D + D = t.cap by omega, probe_zero] at e
+  rw [e, show t.cap - D = (t.cap - D - 1) + 1 by omega]
+  simp only [fofLoop, hfree]
+  rcases hfd with e' | ⟨d'', _, b, c, e'⟩
+  · subst e'
+    exact ⟨_, D, rfl, hD, rfl, by simp only [Option.getD_none]; rw [hfree]; rfl, hpath⟩
+  · subst e'
+    refine ⟨_, d'', rfl, by omega, rfl, by simp only [Option.getD_some]; rw [c]; rfl, fun d' hd' => hpath d' (by omega)⟩
+
+/-- the map a table represents -/
+def Holds (t : Raw κ ν) (k : κ) (v : ν) : Prop := ∃ i st, i < t.cap ∧ t.slot i = .full st k v
+
+/-- C19, insertion of an absent key (no rehash needed): the table afterwards represents the old
+map extended by `k ↦ v`, and the invariant holds again -/
+theorem insert_absent_refines {t : Raw κ ν} (hI : RInv hashOf t) (hc : 0 < t.cap) {k : κ} {v : ν}
+    (habs : ∀ i, i < t.cap → ¬ HasKey t k i)
+    (hfree2 : ∀ p, (t.slot p).isFree = true → ∃ i, i < t.cap ∧ i ≠ p ∧ t.slot i = .free) :
+    ∃ p, fofLoop hashOf t k t.cap (home hashOf t.cap k) none = .ok (.error p) ∧
+      RInv hashOf (insertInSlot hashOf t p k v) ∧
+      (∀ k' v', Holds (insertInSlot hashOf t p k v) k' v' ↔ ((k' = k ∧ v' = v) ∨ (k' ≠ k ∧ Holds t k' v'))) := by
+  obtain ⟨p, dp, e, hdp, hp, hnf, hpath⟩ := fof_absent hashOf hI hc habs
+  have hpc : p < t.cap := by rw [← hp]; exact probe_lt hashOf hc k dp
+  refine ⟨p, e, insertInSlot_inv hashOf hI habs hdp hp hpath hnf (hfree2 p), ?_⟩
+  intro k' v'
+  have slot_eq : ∀ j, (insertInSlot hashOf t p k v).slot j = if j = p then .full (status hashOf k) k v else t.slot j := by
+    intro j; simp [insertInSlot, Raw.setSlot]
+  constructor
+  · rintro ⟨i, st, hi, hs⟩
+    rw [slot_eq] at hs
+    by_cases hip : i = p
+    · rw [if_pos hip] at hs; cases hs; exact Or.inl ⟨rfl, rfl⟩
+    · rw [if_neg hip] at hs
+      refine Or.inr ⟨?_, i, st, hi, hs⟩
+      intro e'; subst e'; exact habs i hi ⟨st, v', hs⟩
+  · rintro (⟨rfl, rfl⟩ | ⟨hne, i, st, hi, hs⟩)
+    · exact ⟨p, status hashOf k', hpc, by rw [slot_eq, if_pos rfl]⟩
+    · have hip : i ≠ p := by
+        intro e'; subst e'; rw [hs] at hnf; simp [Slot.isFull] at hnf
+      exact ⟨i, st, hi, by rw [slot_eq, if_neg hip]; exact hs⟩
+
+/-- lookups read the represented map (and always return) -/
+theorem find_refines {t : Raw κ ν} (hI : RInv hashOf t) (k : κ) :
+    (∃ i v st, i < t.cap ∧ t.slot i = .full st k v ∧ find hashOf t k = .ok (some i)) ∨
+    ((∀ v, ¬ Holds t k v) ∧ find hashOf t k = .ok none) := by
+  by_cases h : ∃ i, i < t.cap ∧ HasKey t k i
+  · obtain ⟨i, hi, st, v, hs⟩ := h
+    exact Or.inl ⟨i, v, st, hi, hs, find_present hashOf hI hi hs⟩
+  · right
+    have habs : ∀ i, i < t.cap → ¬ HasKey t k i := fun i hi hk => h ⟨i, hi, hk⟩
+    refine ⟨?_, find_absent hashOf hI habs⟩
+    rintro v ⟨i, st, hi, hs⟩
+    exact habs i hi ⟨st, v, hs⟩
+
+#print axioms insert_absent_refines
+#print axioms find_refines
+end
+end R
+
+namespace R
+/-! ### negative witness for defect D3 (pinned `find_or_free` reserves only one slot) -/
+def fullOne : Raw Nat Nat := { cap := 1, slot := fun _ => .full 1 1 10, len := 1, free := 0 }
+/-- after `insert(1)` the pinned code leaves a 1-slot table with no FREE slot; looking up the
+absent key 2 then walks the single slot forever -/
+example : find (fun k => k) fullOne 2 = .hang := by rfl
+/-- …whereas the present key is still found -/
+example : find (fun k => k) fullOne 1 = .ok (some 0) := by rfl
+end R
